@@ -448,6 +448,17 @@ func (in *Interp) strEq(a, b Str) Value {
 	if a.key() == b.key() {
 		return true
 	}
+	// input string against a short literal: length and bytes, no sequence theory
+	if okb && !oka {
+		a, b, ca, cb, oka, okb = b, a, cb, ca, okb, oka
+	}
+	if oka && len(b.p) == 1 && b.p[0].k == pkAtom && b.p[0].t.op == "var" && len(ca) <= byteViewMax {
+		conj := []*Term{in.tt.Eq(b.p[0].n, in.tt.BVConst(uint64(len(ca)), 64))}
+		for i := 0; i < len(ca); i++ {
+			conj = append(conj, in.tt.Eq(in.atomByte(b.p[0].t, i), in.tt.BVConst(uint64(ca[i]), 8)))
+		}
+		return boolVal(in.tt.And(conj...))
+	}
 	la, okla := a.ConcreteLen()
 	lb, oklb := b.ConcreteLen()
 	if okla && oklb {
@@ -477,6 +488,57 @@ func (in *Interp) strEq(a, b Str) Value {
 	eq := in.tt.Eq(a.SeqTerm(in.tt), b.SeqTerm(in.tt))
 	// help the solver: equal sequences have equal BV lengths
 	return boolVal(in.tt.And(eq, in.tt.Eq(a.LenTerm(in.tt), b.LenTerm(in.tt))))
+}
+
+const byteViewMax = 48
+
+// atomByte is byte i of an input string, as a BV8 variable of its own (pure
+// bit-vector reasoning); it is linked to the sequence view only if and when
+// the sequence variable itself is used.
+func (in *Interp) atomByte(seqVar *Term, i int) *Term {
+	m := in.tt.byteVars[seqVar]
+	if m == nil {
+		m = map[int]*Term{}
+		in.tt.byteVars[seqVar] = m
+	}
+	if b, ok := m[i]; ok {
+		return b
+	}
+	b := in.tt.Var(fmt.Sprintf("%s[%d]", seqVar.name, i), BV(8))
+	m[i] = b
+	if seqVar.Declared() {
+		in.assume(in.tt.Eq(b, in.tt.SeqNth(seqVar, in.tt.IntConst(int64(i)))))
+	}
+	return b
+}
+
+// strByte returns byte i (concrete index) of s without bounds checking.
+func (in *Interp) strByte(s Str, i int) Value {
+	off := i
+	for _, p := range s.p {
+		switch p.k {
+		case pkBytes:
+			if off < len(p.b) {
+				return Int(p.b[off])
+			}
+			off -= len(p.b)
+		case pkUnit:
+			if off == 0 {
+				return p.t
+			}
+			off--
+		case pkAtom:
+			if p.t.op == "var" && off < byteViewMax {
+				// valid only if the index lies inside this atom; callers have
+				// established i < len(s); for a single-atom string that is exact
+				if len(s.p) == 1 || &p == &s.p[len(s.p)-1] {
+					return in.atomByte(p.t, off)
+				}
+			}
+			return in.tt.SeqNth(s.SeqTerm(in.tt), in.tt.IntConst(int64(i)))
+		}
+	}
+	return in.tt.SeqNth(s.SeqTerm(in.tt), in.tt.IntConst(int64(i)))
 }
 
 func (in *Interp) byteTerm(v Value) *Term {
@@ -870,7 +932,7 @@ func (in *Interp) strIndex(fr *frame, s Str, idx Value) Value {
 		if b, ok := s.byteAt(int(i)); ok {
 			return b
 		}
-		return tt.SeqNth(s.SeqTerm(tt), tt.IntConst(int64(i)))
+		return in.strByte(s, int(i))
 	}
 	it := in.intTerm64(idx)
 	okc := tt.BVCmp("bvult", it, s.LenTerm(tt))
